@@ -160,16 +160,18 @@ Definition ex_static : ocfg :=
           Prec_INTEGER false false.
 Definition ex_wo : ocfg :=
   Mk_ocfg None (Some (Mk_tcfg 4 true Gr_CHANNELWISE Dt_INT 0)) Prec_FLOAT true false.
-(* "others untouched", over WHOLE performer runs: an original tensor that no
-   instruction of its subgraph names comes back with the same name, shape,
-   dtype, buffer and annotation (instructions re-targeted by the performer
-   name new tensors only).  Hypotheses (ids >= 0) are evaluated in Coq on
-   every generated instruction list. *)
+(* "others untouched", over WHOLE performer runs: an original tensor about
+   which every instruction of its subgraph is QUIET — the instruction is one
+   the performer skips (NO_QUANTIZE) or it names another tensor — comes back
+   with the same name, shape, dtype, buffer and annotation (instructions
+   re-targeted by the performer name new tensors only).  [ids_ok]: subgraph
+   and tensor ids >= 0, decided in Coq on every generated instruction list. *)
 Theorem C03_tensor_without_instruction_is_returned_unchanged :
   forall m tis m' k g t,
     nth_opt (m_subgraphs m) k = Some g -> 0 <= t < ntens g ->
     Forall (fun ti => 0 <= ti_sg ti /\ Forall (fun i => 0 <= i_tensor i) (ti_insts ti)) tis ->
-    (forall ti i, In ti tis -> ti_sg ti = Z.of_nat k -> In i (ti_insts ti) -> i_tensor i <> t) ->
+    (forall ti i, In ti tis -> ti_sg ti = Z.of_nat k -> In i (ti_insts ti) ->
+                  is_insertion (i_trans i) = true -> i_tensor i <> t) ->
     transform_graph m tis = Ok m' ->
     exists g', nth_opt (m_subgraphs m') k = Some g' /\ tensor_at g' t = tensor_at g t.
 Proof. exact transform_graph_untouched. Qed.
@@ -220,7 +222,7 @@ Example C03_whole_run_nonvacuous :
 Proof.
   split; [vm_compute; reflexivity|]. split.
   - repeat constructor; cbn; lia.
-  - intros ti i [<-|[]] _ [<-|[<-|[]]]; cbn; lia.
+  - intros ti i [<-|[]] _ [<-|[<-|[]]] _; cbn; lia.
 Qed.
 
 Example C03_nonvacuous :
